@@ -73,7 +73,17 @@ K_COMM = (5000.0, 20000.0)
 K_IDEM = 100.0
 TOL_SYM = 1e-12
 TOL_EELEC = 1e-10
-SP2_HORIZON = 3000
+SP2_HORIZON = 3000  # purification steps per SP2 invocation (healthy: <= 60)
+OTHER_HORIZON = 20000  # any other traced loop (integral set-up loops of cal_par.py are finite for-loops)
+
+
+def horizon_limits(cap):
+    """per-invocation loop-header budgets: 20 x the nominal cap for the SCF pass loops"""
+    lim = {"SP2": SP2_HORIZON}
+    for fn in SR.DEFAULT_TARGETS["scf_loop.py"]:
+        if fn.startswith("scf_forward"):
+            lim[fn] = 20 * (int(cap) + 2) * (4 if fn == "scf_forward3" else 1)
+    return lim
 
 _NB_CACHE = {}
 
@@ -132,9 +142,7 @@ def run_case(case):
         P0 = P0 + SR.perturbation(molecule, P0.shape, 1e-2)
     old_cap = SL.MAX_ITER
     SL.MAX_ITER = int(case["cap"])
-    scf_limit = 20 * (int(case["cap"]) + 2)
-    limits = {"SP2": SP2_HORIZON}
-    h = SR.CallHorizon(limit=max(scf_limit, 100), limits=limits)
+    h = SR.CallHorizon(limit=OTHER_HORIZON, limits=horizon_limits(case["cap"]))
     out = {"status": "ok"}
     try:
         try:
@@ -269,7 +277,7 @@ def _lattice(tier, seed):
     quick = tier == "quick"
     # A: padding lattice
     eigs = [None, 1e-5] if quick else [None] + SP2_TOLS
-    epsA = [1e-6, 1e-10] if quick else EPS
+    epsA = EPS
     for b in _batches(2 if quick else 3):
         for s in SOLVERS:
             for x in eigs:
@@ -279,7 +287,7 @@ def _lattice(tier, seed):
     if quick:
         bB = [("H2CO",), ("CH4", "H2O"), ("NH4+", "OH-"), ("CH3", "H2O")]
         eigB = [None, 1e-7]
-        epsB = [1e-4, 1e-8]
+        epsB = [1e-4, 1e-8, 1e-10]
     else:
         bB = [("H2CO",), ("OH-",), ("CH3",), ("CH4", "H2O"), ("NH4+", "OH-"), ("CH3", "H2O"), ("H2O", "H2CO", "NH4+"),
               ("OH-", "CH3", "CH4")]  # fmt: skip
